@@ -6,7 +6,8 @@
     is NOT provable for the current code: [C07_refuted] below (one class is still open: a two-digit ring marker
     directly followed by a one-digit marker; the classes branch_edge_order and ring_edge_order were repaired in
     /repo by the fix commits be4ff6e and dd9a0c2 and are no longer excluded anywhere).  What is proved instead:
-      - unbounded: the writer half for path graphs of any length ([C07_write_path]) and for every chain-shaped
+      - unbounded: the complete round trip for path graphs of any length ([C07_path_roundtrip]); the writer
+        half for path graphs ([C07_write_path]) and for every chain-shaped
         DFS transcript ([C07_write_chain_transcript]); the DFS on a path graph ([C07_dfs_path]);
       - bounded: [C07_small], the complete round trip (no class excluded) for every graph of a
         stated finite family and every iteration order of the ring-edge set (vm_compute);
@@ -16,7 +17,8 @@
 From Coq Require Import String.
 From Coq Require Import List Ascii ZArith Bool.
 From CGV Require Import Base.PyBase Base.PyVal Base.NxGraph Write.WriteImpl Write.WriteDefs Write.WriteCheck
-     Write.WriteProofs Write.WriteRound Write.WriteDfsSmall.
+     Write.WriteProofs Write.WriteRound Write.WriteDfsSmall Write.PathRound.
+From CGV Require Import Dialect.DialectImpl Reader.ReaderImpl Reader.Grammar.
 Import ListNotations.
 Open Scope Z_scope.
 
@@ -47,6 +49,20 @@ Example C07_write_path_nonvacuous :
   write_cgsmiles_graph (path_graph 2 (name_attrs (S "A")) (mk_rest [(2, 5, S "B"); (1, 3, S "C"); (0, 9, S "D")])) []
   = Ok (S "{[#A]=[#B][#C].[#D]}").
 Proof. exact write_path_example. Qed.
+
+(** UNBOUNDED round trip for paths: what the writer model writes for a path graph of ANY length is read by
+    the reader model (through the reader component's simulation theorem reader_sim_lin and an induction over its
+    token machine) as the same path numbered 0..n along the path, with the attributes the node parser gives
+    for each name and the same orders.  Hypotheses on the names: accepted by the grammar ([name_ok]) and parsed
+    to [A name] (plain names: fragname, charge 0.0, weight 1.0 -- see PathRound.path_roundtrip_example). *)
+Theorem C07_path_roundtrip : forall fo A k0 nm0 (l : list (Z * Z * pystr)),
+  NoDup (k0 :: rest_keys (mk_rest l)) -> (forall x, In x (rest_keys (mk_rest l)) -> k0 <= x) ->
+  Forall (fun x => 0 <= fst (fst x) <= 4) l ->
+  Forall (fun n => name_ok fo n = true) (path_names nm0 l) ->
+  Forall (fun n => parse_graph_base_node fo n = Ok (A n)) (path_names nm0 l) ->
+  exists s, write_cgsmiles_graph (path_graph k0 (name_attrs nm0) (mk_rest l)) [] = Ok s
+            /\ read_cgsmiles fo s = Ok (nx_build A nm0 l).
+Proof. exact path_roundtrip. Qed.
 
 (** the two classes REPAIRED in /repo (fix commits be4ff6e, dd9a0c2): their former witnesses round-trip *)
 Theorem C07_fixed_branch_edge_order :
@@ -89,6 +105,7 @@ Print Assumptions C07_dfs_spanning_small.
 Print Assumptions C07_write_chain_transcript.
 Print Assumptions C07_dfs_path.
 Print Assumptions C07_write_path.
+Print Assumptions C07_path_roundtrip.
 Print Assumptions C07_refuted.
 Print Assumptions C07_fixed_branch_edge_order.
 Print Assumptions C07_fixed_ring_edge_order.
